@@ -9,6 +9,17 @@ import (
 // ZZSig renders every semantic field of an AST (no comments). With res, the results of
 // semantic resolution (category, typedef flag, references, const extras, include usage) are
 // included too. Included files are rendered once each, in depth-first order.
+// zzNumeric: render numeric constants by value only (a double of integral value and the integer of
+// the same value get the same text), as the dump round trip allows.
+var zzNumeric bool
+
+// ZZSigNumeric is ZZSig with numeric constants compared by value.
+func ZZSigNumeric(t *Thrift, res bool) string {
+	zzNumeric = true
+	defer func() { zzNumeric = false }()
+	return ZZSig(t, res)
+}
+
 func ZZSig(t *Thrift, res bool) string {
 	var sb strings.Builder
 	seen := map[*Thrift]bool{}
@@ -60,6 +71,20 @@ func zzType(sb *strings.Builder, t *Type, res bool) {
 func zzConst(sb *strings.Builder, v *ConstValue, res bool) {
 	if v == nil {
 		sb.WriteString("<nil>")
+		return
+	}
+	if zzNumeric && v.TypedValue != nil && (v.TypedValue.Double != nil || v.TypedValue.Int != nil) && v.TypedValue.Literal == nil && v.TypedValue.Identifier == nil {
+		tv := v.TypedValue
+		if tv.Int != nil {
+			sb.WriteString("N:" + strconv.FormatInt(*tv.Int, 10))
+			return
+		}
+		d := *tv.Double
+		if d == float64(int64(d)) && d > -9e18 && d < 9e18 {
+			sb.WriteString("N:" + strconv.FormatInt(int64(d), 10))
+		} else {
+			sb.WriteString("N:d" + strconv.FormatFloat(d, 'g', -1, 64))
+		}
 		return
 	}
 	sb.WriteString(strconv.Itoa(int(v.Type)) + ":")
